@@ -52,7 +52,7 @@ def specVerdict (st : St) (cmd : Cmd) (actual : Emu) : List Term.T × String :=
     let t0 := Term.T.init h.toNat w.toNat
     if t0.accepts act then ([t0], "ok") else ([absShadow actual], "FAIL spec: initial state: " ++ explain t0 act)
   | .op o =>
-    match tokOfX o with
+    match tokOfJ o with
     | none => ([absShadow actual], "-")          -- outside the vocabulary: continue from the implementation
     | some tok =>
       if st.frontier.isEmpty then ([absShadow actual], "-") else
